@@ -633,6 +633,9 @@ def run(ctx: RuleContext, p: Program) -> None:
     ctx.try_rule(rule_str_boundary, p, g, 'STR-BOUNDARY', 7 if ctx.tier == 'quick' else 9)
     from . import round4
     ctx.try_rule(round4.rule_dec_exact, p, 'DEC-EXACT')
+    from . import grammar_rules
+    ctx.try_rule(grammar_rules.rule_term_domain, p, 'TERM-DOMAIN')
+    ctx.try_rule(grammar_rules.rule_lex_prio, p, 'LEX-PRIO')
     ctx.not_decided += ['from_value(v).value == v for arbitrary string values', 'decimal value domain of Number (str(Decimal) may use '
                         'exponents; callers pass abs(value))', 'that produced text lexes as exactly one token in context']
     ctx.assumptions += ['frozen table of str.splitlines break characters', 'frozen strftime table for this platform (%Y unpadded '
